@@ -331,6 +331,41 @@ def moments_props(case):
     return plain, integral, None
 
 
+def moments_sweep(rng, n):
+    """reported moments against quadrature-free references over the whole parameter range (means many standard
+    deviations below the truncation point, tiny and large scales)"""
+    import chi
+    from scipy import stats
+    for _ in range(n):
+        nd = rng.choice([1, 2])
+        tg = chi.TruncatedGaussianModel(n_dim=nd)
+        ln = chi.LogNormalModel(n_dim=nd)
+        sg = [rng.choice([0.05, 0.4, 1.0, 3.0]) for _ in range(nd)]
+        ratio = [rng.choice([-40.0, -20.0, -12.0, -9.0, -8.0, -7.5, -7.0, -6.0, -3.0, -1.0, 0.0, 0.5, 2.0, 8.0, 40.0])
+                 for _ in range(nd)]
+        mu = [r * s_ for r, s_ in zip(ratio, sg)]
+        r = np.asarray(tg.get_mean_and_std(mu + sg), dtype=float)
+        for k in range(nd):
+            ref = stats.truncnorm(a=-mu[k] / sg[k], b=np.inf, loc=mu[k], scale=sg[k])
+            want = (float(ref.mean()), float(ref.std()))
+            got = (float(r[0, k]), float(r[1, k]))
+            if not all(math.isfinite(v) for v in got) or got[0] <= 0 or any(
+                    abs(g - w) > 1e-6 * abs(w) for g, w in zip(got, want)):
+                return {'mu': mu, 'sigma': sg}, ('TruncatedGaussianModel(mu=%r, sigma=%r).get_mean_and_std reports mean %r and '
+                                                  'std %r; the density it scores has mean %r and std %r' % (
+                                                      mu[k], sg[k], got[0], got[1], want[0], want[1]))
+        lmu = [rng.uniform(-3, 3) for _ in range(nd)]
+        lsg = [rng.choice([0.05, 0.5, 1.5]) for _ in range(nd)]
+        r = np.asarray(ln.get_mean_and_std(lmu + lsg), dtype=float)
+        for k in range(nd):
+            want = (math.exp(lmu[k] + lsg[k] ** 2 / 2),
+                    math.sqrt((math.exp(lsg[k] ** 2) - 1) * math.exp(2 * lmu[k] + lsg[k] ** 2)))
+            if any(abs(float(g) - w) > 1e-9 * abs(w) for g, w in zip(r[:, k], want)):
+                return {'mu': lmu, 'sigma': lsg}, ('LogNormalModel(mu=%r, sigma=%r).get_mean_and_std reports %r, the density '
+                                                    'has mean %r and std %r' % (lmu[k], lsg[k], r[:, k].tolist(), want[0], want[1]))
+    return None, None
+
+
 def pop_stat(case):
     """KS / moment tests of every hierarchical dimension against the law compute_log_likelihood scores."""
     from scipy import stats
@@ -413,6 +448,8 @@ def replay_check(case):
 
 
 def oracle(case):
+    if case.get('type') == 'moments':
+        return moments_sweep(random.Random(case['seed']), case['n'])[1]
     d, _, _ = replay_check(case)
     if d:
         return d
@@ -452,6 +489,11 @@ def run(ck):
         cases.append(gen_err_case(ck.rng))
     for _ in range(ck.n(110, 900)):
         cases.append(gen_pop_case(ck.rng))
+    sw_seed = ck.seed * 61
+    wit, d = moments_sweep(random.Random(sw_seed), ck.n(60, 600))
+    ck.count('reported moments over the whole parameter range')
+    if d:
+        ck.violation('C06|reported moments', d, {'type': 'moments', 'seed': sw_seed, 'n': ck.n(60, 600), 'witness': wit})
     n_stat = 0
     for k, case in enumerate(cases):
         label = 's%d' % k
